@@ -371,7 +371,7 @@ def g4_task(payload):
         build.drop_module(mod)
 
 
-def find_witness(cls, what, dialect="default", src=None):
+def find_witness(cls, what, dialect="default", src=None, call_kw=None):
     """replay: type-directed samples through the real to_dict / from_dict against the reference evaluated
     concretely (REF_ENC / REF_DEC source compiled as ordinary Python)"""
     import dataclasses as _dc
@@ -380,6 +380,8 @@ def find_witness(cls, what, dialect="default", src=None):
 
     from . import samples
 
+    if not (hasattr(cls, "to_dict") and hasattr(cls, "from_dict")):
+        return None  # a plain dataclass reached through a codec: no public method to replay on
     try:
         hints = ref.resolved_hints(cls)
         bases = samples.dataclass_instances(cls)
@@ -413,7 +415,7 @@ def find_witness(cls, what, dialect="default", src=None):
                     continue
                 try:
                     inst = _dc.replace(base, **{f.name: v})
-                    got = inst.to_dict()
+                    got = inst.to_dict(**(call_kw or {}))
                     got = got.get(f.name, "<key missing>")
                     why = None if samples.same(got, exp) else f"to_dict()[{f.name!r}] = {got!r}, the reference gives {exp!r}"
                     if why is None:
@@ -423,10 +425,10 @@ def find_witness(cls, what, dialect="default", src=None):
                 except Exception as e:  # noqa
                     why = f"to_dict() raised {type(e).__name__}: {str(e)[:160]}, the reference gives {exp!r}"
                 if why:
-                    return {"confirmed": True, "source": src, "input": f"C({f.name}={v!r})", "why": why}
+                    return {"confirmed": True, "source": src, "input": f"C({f.name}={v!r})" + (f".to_dict({', '.join(k + '=' + getattr(x, '__name__', repr(x)) for k, x in (call_kw or {}).items())})" if call_kw else ""), "why": why}
         else:
             try:
-                base_d = base.to_dict()
+                base_d = base.to_dict(**(call_kw or {}))
             except Exception:
                 base_d = {}
             cands = []
@@ -444,7 +446,7 @@ def find_witness(cls, what, dialect="default", src=None):
                 except Exception as e:  # noqa
                     exp, exp_exc = None, e
                 try:
-                    got, got_exc = getattr(cls.from_dict(dict(base_d, **{f.name: d})), f.name), None
+                    got, got_exc = getattr(cls.from_dict(dict(base_d, **{f.name: d}), **(call_kw or {})), f.name), None
                 except Exception as e:  # noqa
                     got, got_exc = None, e
                 why = None
@@ -459,7 +461,7 @@ def find_witness(cls, what, dialect="default", src=None):
     return None
 
 
-def _ob(oid, res, rec, what, cls, dialect=None, src=None):
+def _ob(oid, res, rec, what, cls, dialect=None, src=None, call_kw=None):
     bad = [v for v in res["verdicts"] if v.status != "proved"]
     ob = dict(id=oid, unit=f"C.{'from' if what == 'REF_DEC' else 'to'}_dict", paths=res["paths"], queries=res["queries"],
               solver_s=round(res["solver_s"], 4), backend="z3", sample=rec.text[:1200])
@@ -473,7 +475,7 @@ def _ob(oid, res, rec, what, cls, dialect=None, src=None):
         ob["witness"] = None
         if what in ("REF_ENC", "REF_DEC") and dialect is not None:  # the caller names the reference generator the proof used
             try:
-                ob["witness"] = find_witness(cls, what, dialect, src)
+                ob["witness"] = find_witness(cls, what, dialect, src, call_kw)
             except Exception as e:  # noqa
                 ob["witness_error"] = f"{type(e).__name__}: {e}"[:200]
     if not res["cover"]:
